@@ -155,6 +155,7 @@ func checkC11(w *World, r *Report) {
 	checkReadsFollowChain(w, r)
 	checkNoWritesUpTheChain(w, r)
 	checkParsedBindingsKept(w, r)
+	checkTagTextConsumed(w, r, "R11.12")
 
 	// ---- R11.2 / R11.3 in IncludeNode.Render and its parts (unexported helpers with that one call
 	// site; flags may travel in a local struct of options and be tested by predicate helpers)
